@@ -481,8 +481,9 @@ func c02configs(tier string) []cfg {
 func c17configs(tier string) []cfg {
 	out := []cfg{
 		{Client: []string{"S:a:flag"}},
-		{Client: []string{"S:a:flag", "C"}, Env: []string{"flag++"}},
-		{Client: []string{"S:a:flag", "U:a"}, Env: []string{"flag++"}},
+		// (subscribe immediately followed by its end: explored one deviation deeper in both tiers)
+		{Client: []string{"S:a:flag", "C"}, Env: []string{"flag++"}, Deep: 3},
+		{Client: []string{"S:a:flag", "U:a"}, Env: []string{"flag++"}, Deep: 3},
 		{Client: []string{"S:a:flag", "U:a", "U:a"}},
 		{Client: []string{"S:a:flag", "S:b:items"}, Env: []string{"edit"}},
 		{Client: []string{"S:a:flag", "S:b:items"}, Max: 1, Env: []string{"flag++"}},
